@@ -520,8 +520,13 @@ func (v *Variant) goEnumFor(f *FieldInfo, match func(map[int64]ygot.EnumDefiniti
 		iface := ft.Kind() == reflect.Interface
 		names := sortedKeys(v.enumAll)
 		// first the types the generated code itself lists for this leaf's schema path
-		if ep := strings.SplitN(strings.TrimPrefix(f.Entry.Path(), "/"), "/", 2); len(ep) == 2 {
-			cands = append(cands, v.EnumTypes["/"+ep[1]]...)
+		// (data-tree path below the module: choice and case nodes are not part of it)
+		var dp []string
+		for e := f.Entry; e != nil && e.Parent != nil; e = dataParent(e) {
+			dp = append([]string{e.Name}, dp...)
+		}
+		if len(dp) > 0 {
+			cands = append(cands, v.EnumTypes["/"+strings.Join(dp, "/")]...)
 		}
 		// prefer types that implement the (simple) union interface, then any matching type
 		for _, n := range names {
